@@ -12,7 +12,7 @@ git -C /repo worktree add -q --detach $wt HEAD || exit 2
 trap 'git -C /repo worktree remove --force '$wt' 2>/dev/null' EXIT
 demo=$(python3 -c "import json;print(json.load(open('$out/meta.json'))['demo_path'])")
 cmd=$(python3 -c "import json;print(json.load(open('$out/meta.json'))['demo_cmd'])")
-src=$(ls $out/*_test.go 2>/dev/null | head -1)
+src=$(find $out -name "*_test.go" | head -1)
 [ -z "$src" ] && { echo "CONFIRM $id: no demo test file"; exit 1; }
 mkdir -p $wt/$(dirname $demo); cp $src $wt/$demo
 cd $wt
